@@ -9,6 +9,7 @@ import (
 	"fmt"
 	"os"
 	"sort"
+	"strings"
 
 	sdk "github.com/cosmos/cosmos-sdk/types"
 
@@ -170,7 +171,15 @@ func (m nftMod) Apply(x *X, st Step) string {
 		if !ok {
 			return "rej"
 		}
-		return a.Deliver(&nfttypes.MsgTransferNFT{Id: id, DenomId: d.Id, Name: "[do-not-modify]", URI: "[do-not-modify]", Data: "[do-not-modify]",
+		uri := "[do-not-modify]"
+		if (st.A[2]+st.A[3])%4 == 3 {
+			// an over-long URI: rejected since "fix: nft MsgTransferNFT validates the token URI length"
+			// (before it, the transfer stored a URI that genesis validation rejects)
+			uri = strings.Repeat("u", 257)
+		} else if (st.A[2]+st.A[3])%4 == 2 {
+			uri = "ipfs://moved"
+		}
+		return a.Deliver(&nfttypes.MsgTransferNFT{Id: id, DenomId: d.Id, Name: "[do-not-modify]", URI: uri, Data: "[do-not-modify]",
 			Sender: who(owner, st.A[0]), Recipient: addr(st.A[3]), UriHash: "[do-not-modify]"}).Kind
 	case "burn":
 		d, id, owner, ok := m.pickNFT(a, st.A[1], st.A[2])
